@@ -111,7 +111,7 @@ class StringLiteral(Operand):
     py_type = str
 
     def _decode(self, data):
-        idx = struct.unpack('>h', data)[0]
+        idx = struct.unpack('>H', data)[0]
         value = self.literals[idx]
         return value
 
